@@ -420,11 +420,29 @@ def corpus_cases():
     return [{"kind": "corpus", "path": rel, "chart": i, "include": inc} for inc in CORPUS_INCLUDES for rel, i in N.corpus_charts()]
 
 
+def long_hold_cases():
+    """a hold or roll kept open while a thousand and more other notes go by (a freeze held through a whole stream), with a
+    second, short hold inside it; everything that has to be buffered until the long one closes comes out afterwards"""
+    out = []
+    for n, head in ((1100, "2"), (1500, "4"), (3200, "2")):
+        notes = [[[0, 1], 0, head, None]]
+        for i in range(1, n + 1):
+            t = "1" if i % 7 else "M"
+            notes.append([[i, 4], 1 + i % 3, t, (i % 10 if i % 11 == 0 else None)])
+        notes[5] = [[5, 4], 1 + 5 % 3, "2", None]
+        notes[9] = [[9, 4], 1 + 5 % 3, "3", None]
+        notes.append([[n + 1, 4], 0, "3", None])
+        notes.append([[n + 2, 4], 2, "1", None])
+        out.append({"kind": "stream", "cols": 4, "notes": notes, "include": None})
+    return out
+
+
 def parts(tier):
     q = tier == "quick"
     rows = 3 if q else 4
     return [
         {"name": "corpus", "kind": "fixed", "cases": corpus_cases},
+        {"name": "long-holds", "kind": "fixed", "cases": long_hold_cases},
         {"name": f"grid-2x{rows}", "kind": "enum", "iter": _grid_iter(rows), "exhaustive": True},
         {"name": "streams", "kind": "hypothesis", "strategy": s_stream, "examples": 5000 if q else 16 * 10000},
     ]
